@@ -543,6 +543,8 @@ func (e *Engine) bindClauses(bc *BoundContract) error {
 			bc.Recovers = true
 		case "panics":
 			bc.MayPanic = true
+		case "partial":
+			bc.Partial = true
 		case "trusted":
 			bc.Trusted = true
 		case "variant":
